@@ -11,7 +11,7 @@ func init() {
 	register(&Spec{
 		ID:          "C05",
 		Loads:       []LoadSpec{{Patterns: []string{"./lnwallet", "./contractcourt"}}},
-		Explanation: "Decides that a received commitment enters the local chain only after the commitment signature (ECDSA true-edge or musig2 ok-edge), every HTLC verification job and the aux verification succeeded; that the HTLC signatures are matched one-to-one to the non-dust HTLC outputs and stored for later use; that the resolutions built after a close use the same second-level arguments that were verified; that every HTLC resolution set is derived from the fee rate, HTLC list and commitment point of the very commitment that confirmed; and that the broadcastable commitment pairs keys and signatures in the fixed order.",
+		Explanation: "Decides that a received commitment enters the local chain only after the commitment signature (ECDSA true-edge or musig2 ok-edge), every HTLC verification job and the aux verification succeeded; that the HTLC signatures are matched one-to-one to the non-dust HTLC outputs and stored for later use; that the resolutions built after a close use the same second-level arguments that were verified, skip exactly the HTLCs HtlcIsDust trims for the owner of the confirmed commitment and carry the CSV delay of their branch (to_self delay on the own commitment, second-level input sequence on the counterparty's); that every HTLC resolution set is derived from the fee rate, HTLC list and commitment point of the very commitment that confirmed; and that the broadcastable commitment pairs keys and signatures in the fixed order.",
 		NotDecided: []string{
 			"script-interpreter verdicts for the signed commitment, second-level transactions and sweeps",
 			"that the claimable value equals balance plus HTLCs due", "CSV / CLTV maturity arithmetic",
@@ -411,6 +411,9 @@ func runC05(r *an.Run) {
 				}
 			}
 		})
+
+	c05TrimmedHtlcs(r)
+	c05CsvRoles(r)
 
 	scriptPathPairs(r, "C05", 4)
 }
